@@ -728,4 +728,47 @@ theorem wf_preserved (prec : ℕ) (hp : 1 ≤ prec) (u : F) (hu : OpWF u) (rIsU 
 
 example : WF (mul_2exp 2 ⟨2, 3, 1, [1, 2, B - 1]⟩ 63) := by decide
 
+
+/-! ### precision changes: mpf_init2, mpf_set_prec, mpf_set_prec_raw, mpf_get_prec -/
+
+theorem WF.toOpWF {x : F} (h : WF x) : OpWF x := ⟨h.1, h.2.1, h.2.2.2.1, h.2.2.2.2⟩
+
+/-- mpf_init2 (n): a well-formed zero whose reported precision is at least n bits. -/
+theorem init2_spec (n : ℕ) : WF (init2 n) ∧ toQ (init2 n) = 0 ∧ get_prec (init2 n) ≥ n :=
+  ⟨WF_zero _, toQ_zero _, prec_roundtrip n⟩
+
+/-- mpf_set_prec keeps the variable well formed at the new precision (BITS_TO_PREC bits ≥ 2 limbs); the value is
+    unchanged when it has at most newprec+1 limbs, otherwise truncated within the error bound of the new precision. -/
+theorem set_prec_spec (x : F) (bits : ℕ) (hx : WF x) :
+    WF (set_prec x bits) ∧ (set_prec x bits).prec = BITS_TO_PREC bits ∧ get_prec (set_prec x bits) ≥ bits ∧
+    (x.d.length ≤ BITS_TO_PREC bits + 1 → toQ (set_prec x bits) = toQ x) ∧
+    (x.size ≠ 0 → |toQ (set_prec x bits) - toQ x| < eps (BITS_TO_PREC bits) * |toQ x|) := by
+  have hp2 := prec_ge_two bits
+  have hrt := prec_roundtrip bits
+  unfold set_prec
+  by_cases h : BITS_TO_PREC bits = x.prec
+  · simp only [h, if_true]
+    refine ⟨hx, trivial, by unfold get_prec; rw [← h]; exact hrt, fun _ => trivial, fun h0 => ?_⟩
+    rw [sub_self, abs_zero]
+    apply mul_pos (by unfold eps; positivity)
+    rw [abs_pos, toQ_sg]
+    have hne := hx.toOpWF.ne_nil h0
+    have : 0 < qv x.d x.exp := qv_pos_iff.mpr (val_pos_of_top hne hx.2.2.2.1)
+    rcases sg_cases x with s | s <;> rw [s] <;> unfold qv at this <;> linarith
+  · simp only [h, if_false]
+    obtain ⟨s1, s2, _⟩ := set_spec (BITS_TO_PREC bits) (by omega) x hx.toOpWF
+    have e : (⟨BITS_TO_PREC bits, if x.size ≥ 0 then ((top (BITS_TO_PREC bits + 1) x.d).length : ℤ)
+        else -((top (BITS_TO_PREC bits + 1) x.d).length : ℤ), x.exp, top (BITS_TO_PREC bits + 1) x.d⟩ : F)
+        = set (BITS_TO_PREC bits) x := rfl
+    rw [e]
+    exact ⟨s1, trivial, hrt, fun hl => set_exact _ x hl, s2⟩
+
+/-- mpf_set_prec_raw never changes the value; the variable stays well formed as long as the stored size fits the
+    new precision (it always does when the precision is restored to the original one). -/
+theorem set_prec_raw_spec (x : F) (bits : ℕ) (hx : WF x) :
+    toQ (set_prec_raw x bits) = toQ x ∧ (x.d.length ≤ BITS_TO_PREC bits + 1 → WF (set_prec_raw x bits)) :=
+  ⟨rfl, fun h => ⟨hx.1, hx.2.1, by show x.size.natAbs ≤ BITS_TO_PREC bits + 1; rw [← hx.2.1]; exact h, hx.2.2.2.1, hx.2.2.2.2⟩⟩
+
+example : (set_prec ⟨4, 5, 3, [1, 2, 3, 4, 5]⟩ 64).d = [3, 4, 5] := by decide
+
 end Mpir.Mpf
